@@ -298,6 +298,18 @@ class HiddenTunnelCommunity(TunnelCommunity):
         Remove the given exit circuit, remove associated rendezvous points and update any PEX communities
         it may be part of.
         """
+        self.forget_exit_socket(circuit_id)
+
+        removal = super().remove_exit_socket(circuit_id, additional_info, remove_now, destroy)
+        # The exit socket lingers for remove_tunnel_delay. Anything that was (re-)established on it in the meantime
+        # (e.g., by a duplicated establish-intro) has to go with it, or it would refer to a dead socket forever.
+        cast("Future", removal).add_done_callback(lambda _: self.forget_exit_socket(circuit_id))
+        return removal
+
+    def forget_exit_socket(self, circuit_id: int) -> None:
+        """
+        Remove the introduction points and rendezvous points that use the given exit circuit.
+        """
         for seeder_pk, (intro_circuit, info_hash) in list(self.intro_point_for.items()):
             if intro_circuit.circuit_id == circuit_id:
                 self.intro_point_for.pop(seeder_pk)
@@ -318,8 +330,6 @@ class HiddenTunnelCommunity(TunnelCommunity):
         for cookie, rendezvous_circuit in list(self.rendezvous_point_for.items()):
             if rendezvous_circuit.circuit_id == circuit_id:
                 self.rendezvous_point_for.pop(cookie)
-
-        return super().remove_exit_socket(circuit_id, additional_info, remove_now, destroy)
 
     def get_max_time(self, circuit_id: int) -> float:
         """
